@@ -90,8 +90,11 @@ def IF(
     if isinstance(test, xlerrors.ExcelError):
         return test
     value = value_if_true if test else value_if_false
-    # The defaults are plain values, not expressions.
-    return value() if isinstance(value, func_xltypes.Expr) else value
+    # The defaults are plain values, not expressions; as the result of a
+    # cell they have to be Excel values like any other.
+    if isinstance(value, func_xltypes.Expr):
+        return value()
+    return func_xltypes.ExcelType.cast_from_native(value)
 
 
 @xl.register()
